@@ -12,7 +12,7 @@ enum OpCode {
   OP_NEW_DEF_ARRAY, OP_NEW_INDEF_ARRAY, OP_NEW_DEF_MAP, OP_NEW_INDEF_MAP, OP_NEW_TAG, OP_BUILD_TAG,
   OP_PUSH, OP_PUSH_MANY, OP_SET, OP_REPLACE, OP_GET, OP_MAP_ADD, OP_ADD_CHUNK, OP_TAG_SET, OP_TAG_ITEM,
   OP_COPY, OP_LOAD, OP_LOAD_RAW, OP_SERIALIZE_ALLOC, OP_SERIALIZE, OP_SIZE, OP_DESCRIBE,
-  OP_INCREF, OP_DECREF, OP_INTERMEDIATE_DECREF, OP_SETVAL, OP_MARK, OP_GETTERS, OP_RESET_HANDLE, OP__COUNT
+  OP_INCREF, OP_DECREF, OP_INTERMEDIATE_DECREF, OP_SETVAL, OP_MARK, OP_GETTERS, OP_RESET_HANDLE, OP_BIG, OP__COUNT
 };
 const char* op_name(int code);
 
